@@ -11,8 +11,8 @@ import (
 // Rules added after the parser / setExponent repairs (hunters H1, H8).
 
 func init() {
-	register(&Rule{ID: "C13.R5", Min: 3,
-		Text: "the exponent limits apply to the sum of the exponent terms: in setExponent no System* return is decided by comparing a single element of the variadic term list with ±MaxExponent (a long fraction is written with a large exponent part: \"1.00…0E+40001\" with 100001 fraction digits is in range), and the exponent finally stored derives from a value that dominating tests hold within [MinExponent, MaxExponent] on both sides",
+	register(&Rule{ID: "C13.R5", Min: 2,
+		Text: "the exponent limits apply to the sum of the exponent terms: in setExponent no System* return is decided by comparing a single element of the variadic term list with ±MaxExponent (a long fraction is written with a large exponent part: \"1.00…0E+40001\" with 100001 fraction digits is in range), the exponent finally stored derives from a value that a dominating test holds at or below MaxExponent, and no value is refused because its exponent rather than its adjusted exponent is below MinExponent (a quotient is padded to the precision, so the exponent of a normal result near the lower limit is below it); the parser tests the lower limit on the adjusted exponent itself",
 		Run:  ruleExponentSum})
 	register(&Rule{ID: "C14.R11", Min: 1,
 		Text: "a rejected string leaves no partial value: at every call of the parsing step from outside the parser, each path that leaves through the error edge overwrites the receiver with the shared NaN (whole value: digits and sign parsed so far are a NaN payload to CmpTotal and to NaN propagation) before it returns — or the parser's own top function does so around its helper",
@@ -234,7 +234,17 @@ func ruleExponentSum(w *World, r *RuleResult) {
 						continue
 					}
 					h := callee(hc)
-					if h == nil || !w.inPkg(h) || len(h.Params) != 1 || len(hc.Common().Args) != 1 || !src[hc.Common().Args[0]] {
+					if h == nil || !w.inPkg(h) || len(h.Params) != len(hc.Common().Args) {
+						continue
+					}
+					// the helper's parameters that receive a value the stored exponent derives from
+					var hp []ssa.Value
+					for j, a := range hc.Common().Args {
+						if src[a] {
+							hp = append(hp, h.Params[j])
+						}
+					}
+					if len(hp) == 0 {
 						continue
 					}
 					for _, hb := range h.Blocks {
@@ -244,7 +254,14 @@ func ruleExponentSum(w *World, r *RuleResult) {
 						}
 						if kr, isKr := rt.Results[0].(*ssa.Const); isKr && kr.Value != nil && ci(kr) == 0 {
 							for _, hg := range guardsAt(hb) {
-								bound(hg, func(v ssa.Value) bool { return v == ssa.Value(h.Params[0]) })
+								bound(hg, func(v ssa.Value) bool {
+									for _, q := range hp {
+										if v == q {
+											return true
+										}
+									}
+									return false
+								})
 							}
 						}
 					}
@@ -282,7 +299,7 @@ func ruleExponentSum(w *World, r *RuleResult) {
 		// exponent is below the limit — a System-underflow return under `sum < MinExponent`. The parser, which
 		// must refuse such strings whatever the context, then has to make that test itself.
 		lowerNormal := false
-		if !lower {
+		{
 			for _, b := range f.Blocks {
 				rt, isRet := b.Instrs[len(b.Instrs)-1].(*ssa.Return)
 				if !isRet {
@@ -321,6 +338,7 @@ func ruleExponentSum(w *World, r *RuleResult) {
 			}
 		}
 		parserChecks := false
+		var parserBare []string // lower-limit tests of the parser on a value that is not an adjusted exponent
 		for _, pf := range w.parserFuncs() {
 			for _, b := range pf.Blocks {
 				rt, isRet := b.Instrs[len(b.Instrs)-1].(*ssa.Return)
@@ -328,28 +346,36 @@ func ruleExponentSum(w *World, r *RuleResult) {
 					continue
 				}
 				for _, g := range guardsAt(b) {
+					hasLimit, adjusted := false, false
 					w.exprOf(pf, g.Cond).walk(func(e *Expr) bool {
 						if e.Op == "const" && e.Name == fmt.Sprint(-maxE) {
-							parserChecks = true
+							hasLimit = true
+						}
+						if e.Op == "call" && strings.Contains(e.Name, "NumDigits") {
+							adjusted = true
 						}
 						return true
 					})
+					if hasLimit {
+						parserChecks = true
+						if !adjusted {
+							parserBare = append(parserBare, "the error return at "+w.instrPos(rt))
+						}
+					}
 				}
 			}
 		}
 		switch {
-		case upper && !lower && lowerNormal && parserChecks:
-			r.ok(key, w.instrPos(st), "the stored exponent is ≤ MaxExponent; below MinExponent only a subnormal of the context is stored (rounded at Etiny), a normal value with such an exponent is refused, and the parser tests the lower limit itself", true)
-		case upper && !lower && lowerNormal && !parserChecks:
+		case !upper:
+			r.bad(key, w.instrPos(st), "the stored exponent derives from a value that no dominating test holds at or below MaxExponent: an exponent above the package limit can be stored")
+		case lower || lowerNormal:
+			r.bad(key, w.instrPos(st), "a value is refused because its exponent — not its adjusted exponent — is below MinExponent: the limit is on the adjusted exponent, the exponent of a normal number of several digits is lower (a quotient is padded to the precision: Quo(1E-99990, 4) at Precision 16 is 2500000000000000E-100005, which comes back as NaN with 'exponent out of range'; \"1.0e-100000\" has the adjusted exponent -100000)")
+		case len(parserBare) > 0:
+			r.bad(key, w.instrPos(st), "the parser refuses a string because its exponent — without the digit count, so not the adjusted exponent — is below MinExponent ("+short(strings.Join(uniqStrings(parserBare), "; "), 200)+"): \"1.0e-100000\" and the text form of a quotient near the lower limit (2.500000000000000E-99990) have adjusted exponents inside the limits and are rejected")
+		case !parserChecks:
 			r.bad(key, w.instrPos(st), "setExponent rounds a value below the lower package limit as a subnormal of the context instead of refusing it, but the parser does not test the lower limit itself: \"1e-200000\" would be accepted as a (flushed) zero instead of being rejected")
-		case upper && lower:
-			r.ok(key, w.instrPos(st), "the value the stored exponent derives from is ≤ MaxExponent and ≥ MinExponent at the store (the clamps to Etiny and c.MaxExponent only move it inwards)", true)
-		case !upper && !lower:
-			r.bad(key, w.instrPos(st), "the stored exponent derives from a value that no dominating test holds within ±MaxExponent: an exponent outside the package limits can be stored (the adjusted-exponent test alone admits 10E-100001, which every later operation refuses)")
-		case !lower:
-			r.bad(key, w.instrPos(st), "the stored exponent is not tested against MinExponent: \"1.0e-100000\" (adjusted exponent −100000, exponent −100001) is stored with an exponent outside the package limits, which the following rounding refuses — an error together with a finite value")
 		default:
-			r.bad(key, w.instrPos(st), "the stored exponent is not tested against MaxExponent")
+			r.ok(key, w.instrPos(st), "the stored exponent is ≤ MaxExponent; on the lower side no value is refused for its exponent alone (the adjusted exponent is what the package limits, a subnormal of the context is rounded at Etiny), and the parser tests the lower limit itself", true)
 		}
 	}
 }
@@ -394,7 +420,15 @@ func (w *World) nanWholeWrite(x ssa.Instruction, recv ssa.Value) bool {
 		return false
 	}
 	g := callee(c)
-	if g == nil || !(w.shortName(g) == "(*Decimal).Set" || w.shortName(g) == "(*Decimal).setSlow") {
+	if g == nil {
+		return false
+	}
+	if !(w.shortName(g) == "(*Decimal).Set" || w.shortName(g) == "(*Decimal).setSlow") {
+		// an unexported helper that leaves the shared NaN in the Decimal it is handed, on every path
+		// ("set NaN and raise the condition")
+		if i, isExit := w.nanExitHelper(g); isExit && i < len(c.Common().Args) && basePtr(c.Common().Args[i]) == recv {
+			return true
+		}
 		return false
 	}
 	args := c.Common().Args
@@ -640,7 +674,7 @@ func ruleQuantizeZeroAnyExponent(w *World, r *RuleResult) {
 }
 
 func init() {
-	register(&Rule{ID: "C08.R9", Min: 10,
+	register(&Rule{ID: "C08.R9", Min: 5,
 		Text: "a NaN the library generates carries no sign: after the destination was overwritten with the shared NaN (d.Set(decimalNaN)) no path to a return stores its Negative field (other than the constant false) — a negative NaN is reserved for a propagated NaN operand; QuoInteger stamped the quotient's sign on its DivisionImpossible NaN",
 		Run:  ruleGeneratedNaNUnsigned})
 }
@@ -768,4 +802,62 @@ func (w *World) powSignIsGuarded(f *ssa.Function, st *ssa.Store) bool {
 	})
 	ok := need["form"] && need["frac"] && need["bit"]
 	return ok
+}
+
+// nanExitHelper: g is an unexported function of the package that overwrites one of its *Decimal parameters
+// with the shared NaN (a whole-value write, with nothing written to it afterwards) on every path to every
+// return. Returns the index of that parameter.
+func (w *World) nanExitHelper(g *ssa.Function) (int, bool) {
+	if g == nil || !w.inPkg(g) || len(g.Blocks) == 0 || (g.Object() != nil && g.Object().Exported()) {
+		return -1, false
+	}
+	if w.nanExitMemo == nil {
+		w.nanExitMemo = map[*ssa.Function]int{}
+	}
+	if v, done := w.nanExitMemo[g]; done {
+		return v, v >= 0
+	}
+	w.nanExitMemo[g] = -1 // recursion guard
+	for i, p := range g.Params {
+		if !isDecimalPtr(p.Type()) {
+			continue
+		}
+		recv := ssa.Value(p)
+		isNaN := func(in ssa.Instruction) bool { return w.nanWholeWrite(in, recv) }
+		all, n := true, 0
+		for _, b := range g.Blocks {
+			rt, isRet := b.Instrs[len(b.Instrs)-1].(*ssa.Return)
+			if !isRet {
+				continue
+			}
+			n++
+			if !seenBefore(rt, isNaN) {
+				all = false
+				break
+			}
+		}
+		if !all || n == 0 {
+			continue
+		}
+		// nothing but the NaN writes touches the parameter
+		clean := true
+		pr := w.newProv(g, nil)
+		for _, b := range g.Blocks {
+			for _, in := range b.Instrs {
+				if isNaN(in) {
+					continue
+				}
+				for _, e := range w.instrEffects(pr, in, nil) {
+					if e.Write && e.Loc.Root.Kind == RParam && e.Loc.Root.Param == i {
+						clean = false
+					}
+				}
+			}
+		}
+		if clean {
+			w.nanExitMemo[g] = i
+			return i, true
+		}
+	}
+	return -1, false
 }
